@@ -127,6 +127,11 @@ class Generator:
         out.append('pub struct Bump<const MIN_ALIGN: usize> { %s }' % ', '.join('pub %s: %s' % (n, t) for n, t, _, _ in bump_fields))
         out.append('// generated from `struct NewChunkMemoryDetails`')
         out.append('#[derive(Clone, Copy)]\npub struct NewChunkMemoryDetails { %s }' % ', '.join('pub %s: %s' % (n, t) for n, t, _, _ in ncmd_fields))
+        attrs_i, body_i = self.src.struct_def('ChunkRawIter')
+        it_fields = [p_ for p_ in split_args(body_i.strip()[1:-1]) if 'PhantomData' not in p_]
+        it_parsed = parse_fields('{' + ','.join(it_fields) + '}')
+        out.append('// generated from `struct ChunkRawIter` (PhantomData marker dropped)')
+        out.append('pub struct ChunkRawIter { %s }' % ', '.join('pub %s: %s' % (n, t) for n, t, _, _ in it_parsed))
         out.append('// footer size/alignment computed from the field list (repr(C), 64-bit); EMPTY_ALIGN from the attributes of EmptyChunkFooter (%s)' % ' '.join(attrs_e.split()))
         out.append('pub const FOOTER_SIZE: usize = %d;\npub const FOOTER_ALIGN: usize = %d;\npub const EMPTY_ALIGN: usize = %d;' % (fsize, falign, ealign))
         env = dict(self.consts)
@@ -148,7 +153,7 @@ class Generator:
             upd = 'ChunkFooter { %s: v, ..old(w).footers@[a] }' % n
             common = ('    requires\n        old(w).footers@.dom().contains(a),   // @ob C03,C01 footer.write_live\n'
                       '        a != EMPTY_ADDR(),   // @ob C20 footer.write_permission (the shared static sentinel is read-only)\n')
-            ens = ('        final(w).footers@ == old(w).footers@.insert(a, %s),\n        final(w).ledger@ == old(w).ledger@,\n' % upd)
+            ens = ('        final(w).footers@ == old(w).footers@.insert(a, %s),\n        final(w).ledger@ == old(w).ledger@,\n        final(w).depth@ == old(w).depth@,\n' % upd)
             out.append('#[verifier::external_body]\npub fn footer_set_%s(w: &mut World, a: usize, v: %s)\n%s    ensures\n%s{ unimplemented!() }' % (n, t, common, ens))
             out.append('#[verifier::external_body]\npub fn footer_replace_%s(w: &mut World, a: usize, v: %s) -> (r: %s)\n%s    ensures\n        r == old(w).footers@[a].%s,\n%s{ unimplemented!() }' % (n, t, t, common, n, ens))
         return '\n'.join(out)
@@ -181,6 +186,7 @@ class Generator:
             'footer_fields': [n for n, _, _, _ in self.footer_fields],
             'self_cells': self.bump_cells if impl in ('bump', 'bump1', 'drop') else (['footer'] if impl == 'iter' else []),
             'w_funcs': self.w_funcs,
+            'desugar': dict(kv.split(':') for kv in spec['desugar'].split(',')) if spec.get('desugar') else {},
         }
         rw = Rewriter(cfg)
         new = rw.rewrite(body)
@@ -189,6 +195,24 @@ class Generator:
         # closure headers (R11) and loop invariants by ordinal
         new = self.splice_closures(new, spec)
         new = self.splice_loops(new, spec)
+        if spec.get('mutparam'):
+            # R14: `mut p: T` parameter == immutable parameter p0 plus `let mut p = p0;` as the first statement
+            p0, p1 = spec['mutparam'].split(':')
+            if not re.search(r'\bmut %s\b' % p1, parts['sig']):
+                raise ExtractError('%s: parameter `mut %s` not found in the real signature' % (spec['name'], p1))
+            o = new.index('{')
+            new = new[:o + 1] + '\n    let mut %s = %s;' % (p1, p0) + new[o + 1:]
+            self.rule_log['R14:mut-param'] = self.rule_log.get('R14:mut-param', 0) + 1
+        for where, pat, text in spec.get('hints', []):
+            # ghost-only hints (proof blocks / ghost lets) anchored at a statement of the real body; exec statements are untouched
+            ls = new.split('\n')
+            idx = [k for k, l in enumerate(ls) if re.search(pat, l)]
+            if len(idx) != 1:
+                raise ExtractError('%s: hint anchor /%s/ matches %d lines' % (spec['name'], pat, len(idx)))
+            k = idx[0] + (1 if where == 'after' else 0)
+            ls[k:k] = ['    /* ghost hint (not part of the real body) */ ' + t for t in text.split('\n')]
+            new = '\n'.join(ls)
+            self.rule_log['ghost-hint'] = self.rule_log.get('ghost-hint', 0) + 1
         if spec.get('prologue'):
             o = new.index('{')
             new = new[:o + 1] + '\n    proof { // contract-side prologue (not part of the real body)\n' + spec['prologue'] + '\n    }' + new[o + 1:]
@@ -310,6 +334,15 @@ class Generator:
                 while not lines[j].startswith('//@endloop'):
                     blk.append(lines[j]); j += 1
                 cur['loops'][int(m.group(1))] = '\n'.join(blk)
+                cur.setdefault('skip', set()).update(range(i, j + 1))
+                i = j
+            elif ln.startswith('//@hint ') and cur is not None:
+                m = re.match(r'//@hint (after|before) /(.*)/\s*$', ln)
+                j = i + 1
+                blk = []
+                while not lines[j].startswith('//@endhint'):
+                    blk.append(lines[j]); j += 1
+                cur.setdefault('hints', []).append((m.group(1), m.group(2), '\n'.join(blk)))
                 cur.setdefault('skip', set()).update(range(i, j + 1))
                 i = j
             elif ln.startswith('//@prologue') and cur is not None:
